@@ -57,7 +57,7 @@ CLAIMS["C03"] = {
     "technique": "relational runtime monitor over recorded results of validate/safeParse/parse (agreement, idempotence, projection, key-order invariance) + input snapshot/deep-freeze mutation monitor",
     "text": "For every (validator, value, options) triple the three entry points of the real client are run and their results related to each other; successful data is re-validated, re-parsed, "
             "checked to be a projection of the input made of declared parts only, compared across objectKeyOrder, and the input is snapshotted before and deep-frozen for a second run. "
-            "Held = no relation broken outside recorded known findings. Besides the random corpus: an enumerated grid of leaf kinds shared by intersection / union members, probes kept from repaired defects (short tuples, Map / Set intersections, prototype-named optional keys, sorted key order), and a bulk stream (containers of 60 000 - 200 000 mostly wrong items against array / tuple / record / Map / Set / union parsers).",
+            "Held = no relation broken outside recorded known findings. Besides the random corpus: an enumerated grid of leaf kinds shared by intersection / union members, probes kept from repaired defects (short tuples, Map / Set intersections, prototype-named optional keys, sorted key order), and a bulk stream (containers of 60 000 - 200 000 mostly wrong items against array / tuple / record / Map / Set / union parsers). An impostor stream offers 55 objects that only look like built-ins (prototype-only Map / Set / Date / typed arrays, subclasses, built-ins with own properties, built-ins beff has no type for), bare and in ten wrappers, to 19 parsers: nothing but parse's documented error may be thrown and the three entry points agree.",
     "note": "No membership oracle is needed except 'declared somewhere' (generous over-approximation from js/ref). Inputs whose own code throws (getters, Proxy traps) are not generated. A2/A1 as everywhere.",
 }
 
@@ -89,7 +89,7 @@ CLAIMS["C04"] = {
     "technique": "fault monitors around the real compiler (catch_unwind + panic-location hook, per-thread CPU-time watchdog, worker-death detection with gdb stack naming) + range checker of every diagnostic against the file text + load / reference-closure walk of every success",
     "text": "Every request runs extract+emit_code on a fresh 64 MB-stack thread under catch_unwind; a panic, a killed worker, >20 s CPU (re-checked alone with 60 s), an emit error without diagnostic, "
             "a diagnostic whose file/line/column is not inside the project text, an unlocated diagnostic for a file that parses, a module that does not load, a missing parser or a dangling RefRuntype is a violation. "
-            "Totality is approximated by absence of failures on ~1.2e4 (quick) / 6e5 (thorough) hostile programs; the evidence lists the diagnostic kinds and outcomes actually observed. Three enumerated grids are judged as well: (container of a self-reference) x (type operator), (empty or collapsing type) x (position), and (enum member form) x (use) x (import style) for an enum declared in a module much longer than the entry file, where every diagnostic must lie inside the file it names. A worker death counts only if the request dies again alone in a fresh process; its stack is read with gdb (retried).",
+            "Totality is approximated by absence of failures on ~1.2e4 (quick) / 6e5 (thorough) hostile programs; the evidence lists the diagnostic kinds and outcomes actually observed. Three enumerated grids are judged as well: (container of a self-reference) x (type operator), (empty or collapsing type) x (position), and (enum member form) x (use) x (import style) for an enum declared in a module much longer than the entry file, where every diagnostic must lie inside the file it names. A worker death counts only if the request dies again alone in a fresh process; its stack is read with gdb (retried). Further grids: pairs / triples of recursive types that each go through a semantic operator in one build, and JSDoc blocks whose frame is made of every kind of white space.",
     "note": "Bounded progress only (20 s / 60 s CPU). Nesting depth of generated input is small, so a stack overflow can only come from unbounded recursion. Native build stands for wasm (A1); module loading through the cjs-style assembly, ESM import for a sample.",
 }
 
@@ -105,7 +105,7 @@ SPEC["C10"] = {
 CLAIMS["C10"] = {
     "technique": "differential runtime monitor across OS processes and file-registration orders: sha256 of emit_code() bytes and of the serialised diagnostics must coincide",
     "text": "Each project is compiled 8 (quick) / 14 (thorough) times: in fresh OS processes (new hash seeds) with lazy, sorted, reversed and shuffled eager file registration, and in the long-lived compile server after unrelated work. "
-            "Any two different outputs (code bytes, diagnostics, outcome) is a violation. A per-process nondeterminism with probability p is missed with probability (1-p)^k.",
+            "Any two different outputs (code bytes, diagnostics, outcome) is a violation. A per-process nondeterminism with probability p is missed with probability (1-p)^k. Registration orders include PARTIAL pre-registration (one file, random subsets, every single file of an export-star chain) next to lazy-only and full orders; further streams: failing projects whose unresolved names have several equally near candidates, and names reaching the entry through 2-3 `export *` hops.",
     "note": "Only nondeterminism that manifests on the generated projects within k runs is seen; the workload is aimed at the places where hash-map iteration could reach the output (namespace typeof, hoist numbering, discriminator choice).",
 }
 
@@ -132,7 +132,7 @@ CLAIMS["C05"] = {
     "text": "For each pair the engine's answer is observed through the public API. The oracle enumerates the exact values of S - per position one representative of every class the two types can tell apart (mentioned literals plus a fresh one, "
             "list lengths up to the longest mentioned prefix plus one extra element per list type of T, mentioned keys plus one fresh key per object type of T under index signatures, named types unfolded to depth 4) - and tests each for open membership in T. "
             "`yes` with a witness outside T is a violation (sound: the witness is a concrete value, re-checked by the reference's own exact/open membership); `no` with a completely enumerated universe and no witness is a violation; `no` with a truncated universe is inconclusive. "
-            "Also checked: is_same_type = both directions; the answer does not depend on what the context has been asked before; a decision that burns 20 s of CPU is reported as non-termination. Violating pairs are shrunk (subterm replacement) while the same clause fails. Streams: bounded-exhaustive pairs, random pairs (a third of them with typed-array / bigint / Date leaves), near pairs, relational laws, covering problems for tuples / objects / index signatures, reference cycles against an edited copy, and finite index signatures against the same keys declared by name.",
+            "Also checked: is_same_type = both directions; the answer does not depend on what the context has been asked before; a decision that burns 20 s of CPU is reported as non-termination. Violating pairs are shrunk (subterm replacement) while the same clause fails. Streams: bounded-exhaustive pairs, random pairs (a third of them with typed-array / bigint / Date leaves), near pairs, relational laws, covering problems for tuples / objects / index signatures, reference cycles against an edited copy, and finite index signatures against the same keys declared by name. A further stream intersects two unions that share a named member (one memoised atom on both sides).",
     "note": "The exact/open reading (left operand: declared properties only; right operand: structural) is the one the property states. Types the engine refuses with an error (`recursive type` for a recursive alias whose body is a union) are counted as refusals, not decisions.",
 }
 SPEC["C06"] = {
@@ -149,7 +149,7 @@ CLAIMS["C06"] = {
     "technique": "invariant monitor on the public BddOps / SemTypeOps / bdd_to_dnf / dnf_to_bdd results with an independent evaluator: truth tables under all 16 assignments (layer 1, 3) and value membership read from the engine's own tables (layer 2)",
     "text": "Layer 1 evaluates a diagram as (atom AND left) OR middle OR (NOT atom AND right) under all assignments of 4 atoms and requires eval(op(x,y)) = op(eval x, eval y) for every operation application explored (tens of thousands of distinct diagrams, including non-False middle branches and both atom orders). "
             "Layer 3 requires the DNF read as a formula, and the diagram rebuilt from it, to have the table of the original. Layer 2 fixes the denotation of every atom (a value is in a mapping / list atom iff it satisfies the atom's table entry, open reading) and requires membership in A op B to be the Boolean combination of the memberships in A and B for every probe value "
-            "(exact values of both operand types, their one-step variants, pseudo values for absent / bigint / Date tags). Leaves include the eleven typed-array classes (pairwise disjoint value sets: a value is an instance of exactly one), bigint and Date, so the allow/deny lists of every proper-subtype kind are exercised.",
+            "(exact values of both operand types, their one-step variants, pseudo values for absent / bigint / Date tags). Leaves include the eleven typed-array classes (pairwise disjoint value sets: a value is an instance of exactly one), bigint and Date, so the allow/deny lists of every proper-subtype kind are exercised. Layer 2 also takes operands that are everything / nothing without being the trivial diagram (A | B | (!A & !B), (!A | B) | (A & !B), and empty counterparts).",
     "note": "Exactness is checked under one fixed denotation of atoms, which is all Boolean exactness needs; whether the emptiness check reads atoms consistently is C05's subject.",
 }
 SPEC["C07"] = {
@@ -166,7 +166,7 @@ SPEC["C07"] = {
 CLAIMS["C07"] = {
     "technique": "round-trip monitor on the public materialisation API: the semantic type and the Runtype handed to code generation are both interpreted by the reference over the same probe values; helper-name bookkeeping is checked on the returned definition lists",
     "text": "For every computed semantic type the monitor observes semtype_to_runtypes' head and helper definitions, and (for differences) the result of remove_nots_of_intersections_and_empty_of_union, i.e. exactly what the frontend inserts and returns. "
-            "A reference that is not backed by exactly one definition, an unprintable construct, or a probe value on which the materialised type and the semantic type disagree is a violation. The source-level counterpart (validators of Exclude / keyof / T[K] against the TypeScript reference) is part of C01's stream.",
+            "A reference that is not backed by exactly one definition, an unprintable construct, or a probe value on which the materialised type and the semantic type disagree is a violation. The source-level counterpart (validators of Exclude / keyof / T[K] against the TypeScript reference) is part of C01's stream. The engine's own round trip is judged as well (the materialised type converted back is the computed type, modulo the missing-property marker), which also covers Map / Set / typed-array / Date atoms; an enumerated grid puts Map / Set / list / object members, named and inline, next to each other under diff / intersect / indexed access.",
     "note": "Membership is compared under one fixed reading of the atoms (materialisation is a transliteration of the diagram, so this is reading-independent); the Exclude step is compared under the exact-left / open-right reading the engine itself uses.",
 }
 SPEC["C08"] = {
@@ -180,7 +180,7 @@ SPEC["C08"] = {
 CLAIMS["C08"] = {
     "technique": "metamorphic runtime monitor: two spellings of one program compiled by the real compiler, validators compared on a shared value pool and by hash256; failing rewrite sequences minimised by re-execution",
     "text": "For every generated program, compositions of catalogued meaning-preserving rewrites are applied to the source AST; original and rewritten program are compiled and every parser pair must give the same "
-            "validate() verdict on every pool value and, for the naming/ordering/comment rewrites, the same hash256(). Held = no difference outside recorded known findings.",
+            "validate() verdict on every pool value and, for the naming/ordering/comment rewrites, the same hash256(). Held = no difference outside recorded known findings. Two rewrites intersect a type (a named object type, or an inline member of a union) with a new, wider alias (behaviour compared, digests not).",
     "note": "The rewrite catalog (js/gen/rewrite.mjs) is the trusted part: each rewrite yields the identical TypeScript type. No membership oracle is involved. Strict mode is not compared (C11's known finding depends on alias boundaries).",
 }
 
@@ -198,7 +198,7 @@ SPEC["C13"] = {
 CLAIMS["C13"] = {
     "technique": "online stream monitor on Hash256Writer (prototype wrapper) against node:crypto SHA-256 + metamorphic digest comparison under rewrites + behaviour=>digest bucket monitor with near-miss twins",
     "text": "Every byte handed to every Hash256Writer during the run is recorded by a wrapper installed from outside and the digest compared with node:crypto over the same bytes (exhaustive over message lengths 0..320); "
-            "hash256/hash of each parser is compared before and after meaning-preserving renamings/reorderings/comments; validators sharing a digest must share their verdict vector, and one-edit twins that the pool distinguishes must get different digests. Twins are also built by retargeting ONE reference inside copies of the declarations (a recursive back-edge aimed at another enclosing type), and an enumerated grid of chains T1 -> ... -> Tn whose back-reference names each enclosing type in turn must give pairwise different digests; 600 strings must reach the hasher as pairwise different byte streams.",
+            "hash256/hash of each parser is compared before and after meaning-preserving renamings/reorderings/comments; validators sharing a digest must share their verdict vector, and one-edit twins that the pool distinguishes must get different digests. Twins are also built by retargeting ONE reference inside copies of the declarations (a recursive back-edge aimed at another enclosing type), and an enumerated grid of chains T1 -> ... -> Tn whose back-reference names each enclosing type in turn must give pairwise different digests; 600 strings must reach the hasher as pairwise different byte streams. Named types registered at run time: for 8 bodies x 8 overrides x 5 holders, a parser hashed before overrideNamedType must report afterwards what a parser built after it reports, and a behaviour-changing override must move the digest.",
     "note": "behaviour=>digest is only as strong as the common pool / generated twins; SHA-256 equality is exact. Known findings record where alias boundaries change the emitted structure and hence the digest.",
 }
 
@@ -219,7 +219,7 @@ CLAIMS["C14"] = {
     "technique": "history monitor over the real long-lived session (thread-local BUNDLER reached through the beff_verif native host): write/rebuild histories with a from-scratch oracle (fresh thread = fresh session) after every rebuild; differing rebuilds are attributed by re-execution and delta-debugged",
     "text": "For every generated history the same beff-wasm entry points the watch loop uses (update_file_content, bundle_to_string, bundle_to_diagnostics, emit_diagnostic) are driven on one session thread over a virtual disk. "
             "Writes are reported to the session the way commandeer.ts does (only for files the session has read; a second policy reports every write). After EVERY rebuild the session's code, emitted diagnostics and diagnostics result must equal "
-            "those of a brand-new session on the current disk. A differing rebuild is attributed (`as-if[f: old->new]`: the session answers exactly like a fresh session on a disk where f still has its earlier content) and shrunk while the attribution stays the same. Projects contain relative imports, a path alias (@app/...) resolved by the host, a barrel module that only passes names on with export *, and file variants in which a name moves between the barrel's targets, stops being exported, becomes unparsable or unresolvable, or only changes its doc comments.",
+            "those of a brand-new session on the current disk. A differing rebuild is attributed (`as-if[f: old->new]`: the session answers exactly like a fresh session on a disk where f still has its earlier content) and shrunk while the attribution stays the same. Projects contain relative imports, a path alias (@app/...) resolved by the host, a barrel module that only passes names on with export *, and file variants in which a name moves between the barrel's targets, stops being exported, becomes unparsable or unresolvable, or only changes its doc comments. Contents come in four classes: valid, unresolvable, unparsable and blank (empty file, white space, comment only, `export {}`, BOM).",
     "note": "Diagnostics of one build are compared as multisets. The JavaScript half of the watch loop (chokidar, fs) is modelled by the notification policy, not executed.",
 }
 SPEC["C15"] = {
@@ -247,7 +247,7 @@ CLAIMS["C09"] = {
     "technique": "metamorphic runtime monitor: single-file program vs. generated multi-file layouts compiled by the real compiler (outcome, validators on a value pool, hash256), plus broken-link fault injection expecting a diagnostic",
     "text": "Each generated program is compiled as one file and as a project whose declarations are spread over files with randomly chosen import/export styles; both must compile and every parser must give the same verdicts "
             "(and, up to recorded alias/member-order findings, the same hash256). With two different types given the same name in different files the parsers must still match their single-file counterparts. "
-            "After removing an export, an import or a file that a parser depends on, the project must produce a diagnostic and no code. Enumerated grids add: two declarations of one name in two files for each declaration kind (alias, interface, enum used whole / through a member / behind an alias, const through typeof) x import style x shape, judged on four distinguishing values; and a module that imports a VALUE while declaring a TYPE of the same name. A rejected split project is attributed by a model of beff's export walk (does an export * lead back into the named re-export being resolved?), which keys the one recorded finding of that kind.",
+            "After removing an export, an import or a file that a parser depends on, the project must produce a diagnostic and no code. Enumerated grids add: two declarations of one name in two files for each declaration kind (alias, interface, enum used whole / through a member / behind an alias, const through typeof) x import style x shape, judged on four distinguishing values; and a module that imports a VALUE while declaring a TYPE of the same name. A rejected split project is attributed by a model of beff's export walk (does an export * lead back into the named re-export being resolved?), which keys the one recorded finding of that kind. Half of the split projects are also compiled through beff_wasm's own file manager and module resolver (native host of the hook; `beffc` request flag via=wasm): outcome, code (byte for byte) and diagnostics must equal those of the harness path. A grid puts one relative specifier into two directories (7 link styles squared, equal or different export names), and modules may export through plain / type-only / inline-type lists.",
     "note": "Module resolution is the harness's TypeScript-style probing over a virtual project (.ts/.tsx/.d.ts/index.ts), not tsc's; chokidar / tsconfig paths are out of scope.",
 }
 
@@ -281,6 +281,6 @@ SPEC["C16"] = {
 CLAIMS["C16"] = {
     "technique": "history monitor over recorded schemaWithContext() call sequences: the exported definition table after every order / repetition is compared with the fresh-context table (offline checker over recorded states)",
     "text": "For every parser set all call orders (<= 4 parsers: all permutations) and sequences with repetitions are replayed on one SchemaPrintingContext of the real client; after each sequence the exported definitions "
-            "must equal those of any other sequence, each definition must equal what a fresh context produces, none may be empty or still marked in progress, and every $ref of every returned schema and definition must resolve.",
+            "must equal those of any other sequence, each definition must equal what a fresh context produces, none may be empty or still marked in progress, and every $ref of every returned schema and definition must resolve. An enumerated grid crosses 18 ways a named type Back mentions Node with 7 ways Node leads back to Back (through intersections with named and inline members, unions, tagged unions, utility types, containers, generics, interface extension), all call orders of three parsers.",
     "note": "Reads the erased-private inProgressDefinitions field. Types JSON Schema cannot express are skipped (C02 covers the throw). Schema/validator agreement for the shared context is C02's oracle (contextual mode).",
 }
